@@ -847,6 +847,9 @@ fn oracle(inst: &Inst, md: &MdVals, out: &[usize], trace: Option<&[(usize, Ev)]>
 // ------------------------------------------------------------------ run_op
 
 pub fn run_op(ctx: &mut Ctx, op: &str) {
+    if ctx.hang_limit_reached() {
+        return;
+    }
     let secs = sections(op);
     let head = secs[0].clone();
     let kind = head.first().copied().unwrap_or("");
